@@ -84,7 +84,7 @@ type c16Tx struct {
 	Amt    uint64   `json:"amt"`
 }
 
-const c16ScriptKinds = 14
+const c16ScriptKinds = 26
 
 func c16OutScript(kind int) []byte {
 	switch kind {
@@ -112,6 +112,11 @@ func c16OutScript(kind int) []byte {
 		return append(sc, 0x0b, 0x68, 0x65, 0x6c, 0x6c, 0x6f, 0x20, 0x77, 0x6f, 0x72, 0x6c, 0x64)
 	case 13:
 		return []byte{0x6a, 0x03, 0x61, 0x62, 0x63, 0x51}
+	}
+	// scripts that end inside a push: every partial length field and short payloads
+	if trunc := [][]byte{{0x4d}, {0x4d, 0x01}, {0x4e}, {0x4e, 0x01}, {0x4e, 0x01, 0x02}, {0x4e, 0x01, 0x02, 0x03}, {0x6a, 0x4e, 0x01, 0x02, 0x03},
+		{0x05, 0x01}, {0x4c, 0x05, 0x01}, {0x4d, 0x05, 0x00, 0x01}, {0x4e, 0x05, 0x00, 0x00, 0x00, 0x01}, {0x00, 0x6a, 0x4d, 0x01}}; kind-14 < len(trunc) {
+		return trunc[kind-14]
 	}
 	return fill(300, 0x99)
 }
@@ -204,6 +209,22 @@ func c16TxCheck(c c16Tx) (fs []rep.Finding) {
 				fs = append(fs, rep.F("Txs.node|roundtrip", d))
 			}
 		}
+		// the same destination decoded into again: a shorter list, then a longer one
+		for _, again := range []bt.Txs{{tx2}, {tx2, tx, tx2}, {}} {
+			b, err := json.Marshal(again.NodeJSON())
+			if err != nil {
+				continue
+			}
+			if err := json.Unmarshal(b, back.NodeJSON()); err != nil || len(back) != len(again) {
+				fs = append(fs, rep.F("Txs.node|decode-into-used-list", fmt.Sprintf("a list of %d transactions decoded into a list variable used before: err=%v, %d elements", len(again), err, len(back))))
+				break
+			}
+			for i := range again {
+				if d := sameTx(again[i], back[i]); d != "" {
+					fs = append(fs, rep.F("Txs.node|decode-into-used-list", d))
+				}
+			}
+		}
 		// plain list, library dialect
 		b, err = json.Marshal([]*bt.Tx{tx, tx2})
 		if err != nil {
@@ -268,6 +289,13 @@ func c16TxCheck(c c16Tx) (fs []rep.Finding) {
 						fs = append(fs, rep.F("UTXOs.node|roundtrip", fmt.Sprintf("utxo %d", i)))
 					}
 				}
+				// the same destination decoded into again, with a shorter list
+				short := us[len(us)-1:]
+				if b, err := json.Marshal(short.NodeJSON()); err == nil {
+					if err := json.Unmarshal(b, back.NodeJSON()); err != nil || len(back) != 1 || back[0].Vout != short[0].Vout || !bytes.Equal(back[0].TxID, short[0].TxID) {
+						fs = append(fs, rep.F("UTXOs.node|decode-into-used-list", fmt.Sprintf("a list of 1 decoded into a list variable used before: err=%v, %d elements", err, len(back))))
+					}
+				}
 			}
 		}
 		b, err = json.Marshal([]*bt.UTXO(us))
@@ -313,7 +341,7 @@ func c16Boundary() []uint64 {
 
 func init() {
 	p := register(&Prop{ID: "C16", Level: "exploration",
-		Rule: "exhaustive: (amounts) every amount 0..2,000,000 (quick) / 0..100,000,000 (thorough) and ~8,300 decimal-boundary amounts up to 21e14 through Output and UTXO in both JSON dialects (marshal -> unmarshal -> equal satoshis/script/txid/vout); (transactions) product of shapes nIn 0..3 x nOut 0..3 x signing state {unsigned(nil scripts), first input only, all, empty scripts} x 14 output-script kinds (P2PKH, empty, data with pushes of 1..5 bytes, undecodable, multisig, inscription, odd pushes, 300 bytes) x boundary amounts x version/locktime values, each marshalled as Tx (library and node dialect), Txs list (node), []*Tx, per-output Output (both), UTXOs list (node) and []*UTXO: marshal must return (value or error, no panic) and the unmarshalled object must have identical Bytes()/TxID/scripts/satoshis. distinct_nontrivial = distinct amounts + distinct transaction serialisations round-tripped",
+		Rule: "exhaustive: (amounts) every amount 0..2,000,000 (quick) / 0..100,000,000 (thorough) and ~8,300 decimal-boundary amounts up to 21e14 through Output and UTXO in both JSON dialects (marshal -> unmarshal -> equal satoshis/script/txid/vout); (transactions) product of shapes nIn 0..3 x nOut 0..3 x signing state {unsigned(nil scripts), first input only, all, empty scripts} x 26 output-script kinds (P2PKH, empty, data with pushes of 1..5 bytes, multisig, inscription, odd pushes, 300 bytes, and 13 scripts that end inside a push: every partial PUSHDATA1/2/4 length field and short payloads) x boundary amounts x version/locktime values, each marshalled as Tx (library and node dialect), Txs list (node), []*Tx, per-output Output (both), UTXOs list (node) and []*UTXO, the node-dialect lists also decoded into a list variable that was decoded into before (shorter, longer and empty lists): marshal must return (value or error, no panic) and the unmarshalled object must have identical Bytes()/TxID/scripts/satoshis. distinct_nontrivial = distinct amounts + distinct transaction serialisations round-tripped",
 	})
 	sA := NewSpace(p, "amounts", c16AmtCheck)
 	sT := NewSpace(p, "transactions", c16TxCheck)
